@@ -42,6 +42,8 @@ class ReadPathRun:
         self.handshake_done = False
         self.calls = 0
         self.withheld = False
+        self.msub = set()
+        self.mall = False
 
     def t(self, s):
         self.res.trace.append(s)
@@ -51,7 +53,7 @@ class ReadPathRun:
         import pyrtma
         import pyrtma.message as PM
         ch = self.ch
-        self.timecode = bool(ch.pick("cfg.timecode", 2))
+        self.timecode = self.timecode_wanted
         self.hs = C.hdr_size(self.timecode)
         self.w = World(ch, timecode=self.timecode)
         w = self.w
@@ -176,7 +178,7 @@ class ReadPathRun:
         kind = kind or ch.weighted("fd.kind", [(5, "good"), (4, "good_unsub"), (2, "ack"), (2, "unknown"),
                                                (2, "wrong_size"), (2, "wrong_version"), (1, "version0"),
                                                (1, "zero_len")])
-        sub = self.client.subscribed_types
+        sub = {ALL} if self.mall else set(self.msub)
         version = None
         if kind in ("good", "good_unsub", "wrong_version", "version0", "wrong_size"):
             pool = GOOD_TYPES + [SCRATCH_TYPE, SCRATCH_TYPE]
@@ -289,8 +291,9 @@ class ReadPathRun:
         timeout = ch.weighted("rd.timeout", [(4, 0), (3, 0.25), (2, -1), (1, None), (1, 3)])
         ack = ch.flag("rd.ack", 1, 5)
         sync = ch.flag("rd.sync", 1, 2)
-        sub = c.subscribed_types
-        sub_all = sub == {ALL}
+        # 'currently subscribed' is judged by the history of API calls, not by what the client reports
+        sub = set(self.msub)
+        sub_all = self.mall
         sock = self.csock
         if timeout is None and not sock.rx_arrived and not sock.rx_inflight and self.closed_kind is None:
             self.feed_one()   # timeout=None skips select and blocks in recv: data will come
@@ -415,13 +418,30 @@ class ReadPathRun:
             pass
 
     # ------------------------------------------------------------------ run
+    def model_sub(self, k, ts):
+        """reference semantics of the client's subscription set (what 'currently subscribed' means)"""
+        if k in ("all",):
+            self.mall, self.msub = True, set()
+        elif k in ("unall", "pauseall"):
+            self.mall, self.msub = False, set()
+        elif self.mall:
+            return              # individual requests are refused while subscribed to all types
+        elif k in ("sub", "resume"):
+            self.msub |= set(ts)
+        else:
+            self.msub -= set(ts)
+
     def change_subscription(self):
         ch = self.ch
         c = self.client
         from pyrtma.exceptions import ClientError
-        k = ch.weighted("sub.kind", [(4, "sub"), (2, "unsub"), (1, "pause"), (1, "resume"), (1, "all"), (1, "unall")])
+        k = ch.weighted("sub.kind", [(4, "sub"), (2, "unsub"), (1, "pause"), (1, "resume"), (1, "all"), (1, "unall"),
+                                     (1, "pauseall")])
         ts = [ch.choose("sub.t", GOOD_TYPES + [C.MT_ACKNOWLEDGE, SCRATCH_TYPE, SCRATCH_TYPE])]
+        if ch.flag("sub.two", 1, 3):
+            ts.append(ch.choose("sub.t", GOOD_TYPES + [SCRATCH_TYPE]))
         try:
+            self.model_sub(k, ts)
             if k == "sub":
                 c.subscribe(ts)
             elif k == "unsub":
@@ -432,21 +452,46 @@ class ReadPathRun:
                 c.resume_subscription(ts)
             elif k == "all":
                 c.subscribe([ALL])
+            elif k == "pauseall":
+                c.pause_subscription([ALL])
             else:
                 c.unsubscribe([ALL])
-            self.t(f"client {k} {ts if k not in ('all', 'unall') else ''}")
+            self.t(f"client {k} {ts if k not in ('all', 'unall', 'pauseall') else ''}")
         except ClientError as e:
             self.t(f"client {k} -> {type(e).__name__}")
         if self.srv is not None:
             del self.srv.rx_inflight[:]
 
     def run(self) -> RunResult:
+        """one or two sessions in one run; the second uses the other header layout (a process may host
+        clients of both kinds)"""
+        ch = self.ch
+        first_tc = bool(ch.pick("cfg.timecode", 2))
+        two = (not self.forced) and ch.flag("cfg.second_session", 1, 4)
+        res = self.session(first_tc)
+        if two and not res.violations:
+            keep = (list(res.trace), res.probes.copy(), res.stats.copy(), res.sim_seconds)
+            self.__init__(ch, self.forced)
+            self.res.trace = keep[0] + ["--- second session, other header layout ---"]
+            self.res.probes.update(keep[1])
+            self.res.stats.update(keep[2])
+            self.res.probes["second_session"] += 1
+            res = self.session(not first_tc)
+            import hashlib
+            res.digest = hashlib.sha256(("|".join(res.trace)).encode()).hexdigest()
+            res.sim_seconds += keep[3]
+        return res
+
+    def session(self, timecode) -> RunResult:
         res = self.res
         ch = self.ch
+        self.timecode_wanted = timecode
         try:
             self.setup()
             c = self.client
-            c.subscribe([ch.choose("init.t", GOOD_TYPES + [SCRATCH_TYPE]), ch.choose("init.t", GOOD_TYPES + [SCRATCH_TYPE])])
+            init = [ch.choose("init.t", GOOD_TYPES + [SCRATCH_TYPE]), ch.choose("init.t", GOOD_TYPES + [SCRATCH_TYPE])]
+            self.model_sub("sub", init)
+            c.subscribe(init)
             f = self.forced
             n = 3 + ch.pick("cfg.nops", 20)
             forced_close = f.get("close_after_frames")
